@@ -312,7 +312,9 @@ PROPS["C12"] = dict(
               "the displaced connections receive nothing. Second run (pipelined): 10-40 takeovers per case in which the displacing client writes "
               "CONNECT and PINGREQ (or SUBSCRIBE) back to back without waiting for CONNACK, on a node that knows 0 / 2000 / 20000 unrelated session "
               "records (same or other node): CONNACK and every PINGRESP/SUBACK must arrive, the identifier must resolve to the new session only, "
-              "the displaced session is refused at its next PINGREQ."),
+              "the displaced session is refused at its next PINGREQ. Third run (stale): all placements of chains of 3-4 (thorough 5) connections over "
+              "2-3 nodes; the newest session's host is handed, late and before any removal, the announcement of every earlier session, and the newest "
+              "session pings after each: it must stay served and end up as the session every node resolves the identifier to."),
         note=_L3_NOTE + " Failures that depend on Go map iteration order are re-run (up to 4 times) before they are reported; --replay runs the saved case 6 times.",
         technique="stateful property-based testing with a harness-owned gossip schedule (rapid generation + shrinking)",
     ),
@@ -322,6 +324,7 @@ PROPS["C12"] = dict(
     runs=[
         dict(name="regress", pkg="c12", run="TestRegress", timeout=300),
         dict(name="random", pkg="c12", run="TestRandom", checks=dict(quick=1600, thorough=16000), shards=16, timeout=dict(quick=400, thorough=2400), shrinktime="90s"),
+        dict(name="stale", pkg="c12", run="TestStaleAnnouncement", shards=16, timeout=dict(quick=400, thorough=2400)),
         dict(name="pipelined", pkg="c12", run="TestPipelinedTakeover", checks=dict(quick=160, thorough=1600), shards=16, timeout=dict(quick=400, thorough=2400), shrinktime="60s"),
     ],
 )
